@@ -1,7 +1,5 @@
 package main
 
-func genPools(c *ctx)                                  {}
-func genVersionFacts(c *ctx)                           {}
 func genFacts(c *ctx, s *schema)                       {}
 func genResolver(c *ctx, s *schema)                    {}
 func genFormatter(c *ctx, s *schema)                   {}
